@@ -3,7 +3,12 @@ import Prom.Model.Conc
 /-
 Replay machine for concurrent use of one `Registry` (area `creg`; C06 / C14): `register` and
 `unregister` are one critical section under the registry's write lock, `gather` one under the read
-lock. The machine touches the registry only through `rEff`, i.e. by performing one operation of the
+lock. An `unregister` may ALSO first look its collector up under the READ lock (`unregFails`): when it
+is not registered the call commits there - a refused unregister leaves the registry as it is - and is
+complete at the read unlock, no write lock taken; when it is registered nothing is committed, and
+after the read unlock the write-locked section follows as without the pre-check (the collector is
+looked up AGAIN there: an unregister of another thread in the gap makes it report the error). The
+machine touches the registry only through `rEff`, i.e. by performing one operation of the
 sequential model `Reg.register` / `Reg.unregister` / `Reg.gather` (Model/Registry.lean) and
 recording it in a commit log.
 -/
@@ -34,9 +39,20 @@ def specApply (colls : List Coll) (r : Reg) : ROp → Reg × String
     | none => (r, "no-coll")
   | .gather => (r, "+".intercalate (r.gather.map fun f => hexOf f.name ++ ":" ++ toString f.samples.length))
 
+/-- the read-locked pre-check of `unregister i`: would the specification's unregister fail on `r`
+    (collector not registered, or no collector `i`)? Nothing is committed by evaluating this. -/
+def unregFails (colls : List Coll) (r : Reg) (i : Nat) : Bool :=
+  match colls[i]? with
+  | some c => match (r.unregister c).2 with
+    | .ok _ => false
+    | .error _ => true
+  | none => true
+
 inductive RPc
   | start (op : String)
   | held (write : Bool) (rv : String)
+  | unrRheld (i : Nat) (done : Option String)   -- `unreg:i` pre-check: read lock held; `some rv` = not registered, the unregister is committed with result `rv`
+  | unrNeedW (i : Nat)                           -- `unreg:i` pre-check found the collector, read lock released; next: the write lock
 deriving Repr
 
 /-- one committed operation: the thread, (ghost) the index of the call of that thread whose step
@@ -83,6 +99,23 @@ def step (s : St) (e : Ev) : Except String St :=
           guard s.lockW.isNone "read lock granted while a writer holds the lock" <|
           let (s1, rv) := rEff s e.tid th.idx .gather
           .ok (setTh { s1 with lockR := e.tid :: s1.lockR } { th with pc := some (.held false rv) })
+        | some (.unregister i) =>
+          if e.k == "R" then
+            -- `unregister` may first look the collector up under the READ lock: when the specification's unregister would
+            -- fail it takes effect here (a refused unregister changes nothing), the call is complete once the read lock is
+            -- released and no write lock is taken; when it would succeed nothing is committed yet
+            guard (e.loc == "lk") "unregister: expected the read lock on lk" <|
+            guard s.lockW.isNone "read lock granted while a writer holds the lock" <|
+            if unregFails s.colls s.reg i then
+              let (s1, rv) := rEff s e.tid th.idx (.unregister i)
+              .ok (setTh { s1 with lockR := e.tid :: s1.lockR } { th with pc := some (.unrRheld i (some rv)) })
+            else
+              .ok (setTh { s with lockR := e.tid :: s.lockR } { th with pc := some (.unrRheld i none) })
+          else
+            guard (e.k == "X" && e.loc == "lk") "register / unregister: expected the write lock" <|
+            guard (s.lockW.isNone && s.lockR.isEmpty) "write lock granted while the lock is held" <|
+            let (s1, rv) := rEff s e.tid th.idx (.unregister i)
+            .ok (setTh { s1 with lockW := some e.tid } { th with pc := some (.held true rv) })
         | some rop =>
           guard (e.k == "X" && e.loc == "lk") "register / unregister: expected the write lock" <|
           guard (s.lockW.isNone && s.lockR.isEmpty) "write lock granted while the lock is held" <|
@@ -95,6 +128,19 @@ def step (s : St) (e : Ev) : Except String St :=
         else
           guard (e.k == "r" && e.loc == "lk") "expected the read unlock" <|
           .ok (setTh { s with lockR := s.lockR.erase e.tid } { th with pc := none, retv := some rv })
+      | .unrRheld i done =>
+        guard (e.k == "r" && e.loc == "lk") "unregister: expected the read unlock" <|
+        let s1 := { s with lockR := s.lockR.erase e.tid }
+        match done with
+        | some rv => .ok (setTh s1 { th with pc := none, retv := some rv })
+        | none => .ok (setTh s1 { th with pc := some (.unrNeedW i) })
+      | .unrNeedW i =>
+        -- unregister under the write lock: the collector is looked up AGAIN (the specification's unregister on the
+        -- registry as it is NOW decides; an unregister of another thread in the gap makes it report the error)
+        guard (e.k == "X" && e.loc == "lk") "unregister: expected the write lock after the pre-check found the collector" <|
+        guard (s.lockW.isNone && s.lockR.isEmpty) "write lock granted while the lock is held" <|
+        let (s1, rv) := rEff s e.tid th.idx (.unregister i)
+        .ok (setTh { s1 with lockW := some e.tid } { th with pc := some (.held true rv) })
 
 def item (s : St) : Item → Except String St
   | .ev e => step s e
